@@ -15,7 +15,7 @@ func (c09) Budget(tier string) (int, int) {
 	if tier == "thorough" {
 		return 40000000, 480
 	}
-	return 80000, 20
+	return 80000, 90
 }
 func (c09) Rule() string {
 	return "fault H-error@k: the simulator-owned handler (as a HandlerFunc adapter or as a struct implementing the interface) returns a chosen error value (pointer sentinel, comparable struct value, io.EOF, slice-/map-/func-typed errors whose dynamic type is not comparable, a typed nil pointer inside a non-nil interface) (or one of 13 error values obtained from the library itself - errUnexpectedEOF, errInvalidArray, errNoValidToken, errPOutOfRange ... - as a handler that passes a reader's error on would) at callback k with an accompanying offset from {0, exact end, the hostile catalogue incl. values near the integer limits}; earlier callbacks decline/consume/run nested traversals from the tape. For containers of <= 32 members every k is enumerated (one scenario per k), larger ones are sampled. Also nested: the error is raised inside a traversal started from a callback and must come back through every level. A run is non-trivial when an error was injected; distinct = distinct hashes of (operation, document class, decisions, k, error kind, offset class)."
